@@ -2,11 +2,12 @@
 //! simulator chose, running the repository's real library stages.
 //!
 //! Only `main.rs` is a stub here: `run_stub` mirrors `main.rs run` (same stage order, same
-//! `collect_errors` folding, same output formatting) and replaces `evaluate` by the same loop with
-//! a step budget, so that a divergent program written in gram cannot stall the simulator.
+//! `collect_errors` folding, same output formatting). `evaluate` is the repository's own, called
+//! after a step-budgeted pre-flight of the same loop has shown that the program terminates, so
+//! that a divergent program written in gram cannot stall the simulator.
 
 use crate::error::Error;
-use crate::evaluator::{is_value, step};
+use crate::evaluator::{evaluate, step};
 use crate::format::CodeStr;
 use crate::parser::parse;
 use crate::sim_entropy::{self, CallLog, Plan};
@@ -131,7 +132,9 @@ pub fn run_stub(path: &str, source: &str, step_budget: u64) -> Obs {
         elaborated_type.to_string().code_str(),
     );
 
-    // `evaluate`, with a step budget.
+    // Pre-flight with a step budget: the same loop as `evaluate`, only to learn whether the
+    // program terminates within the budget, so that a divergent program written in gram cannot
+    // stall the simulator.
     let mut current = elaborated_term.clone();
     let mut steps: u64 = 0;
     let mut capped = false;
@@ -143,17 +146,16 @@ pub fn run_stub(path: &str, source: &str, step_budget: u64) -> Obs {
             break;
         }
     }
+    drop(current);
 
+    // The observation itself comes from the repository's real `evaluate`.
     let (stage, run_out, run_err, run_status) = if capped {
         ("evaluate", String::new(), String::new(), -1)
-    } else if is_value(&current) {
-        ("done", format!("{}\n", current.to_string().code_str()), String::new(), 0)
     } else {
-        let error = Error {
-            message: format!("Evaluation of {} is stuck!", current.to_string().code_str()),
-            reason: None,
-        };
-        ("evaluate", String::new(), format!("{error}\n"), 1)
+        match evaluate(&elaborated_term) {
+            Ok(value) => ("done", format!("{}\n", value.to_string().code_str()), String::new(), 0),
+            Err(error) => ("evaluate", String::new(), format!("{error}\n"), 1),
+        }
     };
 
     Obs {
